@@ -25,8 +25,9 @@ pub const CNV_NUM: [u8; 128] = [
     b' ', 0, 11, 1, 12, 30, 30, 2, 13, 30, 30, 9, 30, 10, 4, 30,
     // 80-95: Upper case continued
     30, 30, 5, 7, 3, 15, 14, 8, 30, 6, 30, 30, 30, 30, 30, 30,
-    // 96-111: Lower case letters starting at 'a' (97)
-    b' ', 0, 11, 1, 12, 30, 30, 2, 13, 30, 30, 9, 30, 10, 4, 30,
+    // 96-111: Lower case letters starting at 'a' (97); 96 ('`') passes the `c > 64` filter like the
+    // other non-letters above 64, so it must map to the unknown-symbol code too (not the filler)
+    30, 0, 11, 1, 12, 30, 30, 2, 13, 30, 30, 9, 30, 10, 4, 30,
     // 112-127: Lower case continued
     30, 30, 5, 7, 3, 15, 14, 8, 30, 6, 30, 30, 30, 30, 30, 30,
 ];
